@@ -126,7 +126,8 @@ def run_single(ctx, rng, N):
         da = base_data(rng, n, nlat, nlon, cplx=sp.cplx, red=sp.ordered)
         k = 2
         kw = {}
-        if name == "EOF" and (i // len(names)) % 3 == 2:
+        antisym = name == "EOF" and (i // len(names)) % 3 == 2
+        if antisym:
             # a field that is nearly antisymmetric under a reflection: the southern row is the mirrored northern row with the opposite sign and
             # 1e-7 larger. The largest positive and the largest negative loading of every mode differ by 1e-7 - far above rounding, so the sign
             # convention is well defined - and sit at different places of the feature order in different layouts
@@ -135,7 +136,8 @@ def run_single(ctx, rng, N):
             north = da.isel(lat=0).values
             da.values[:, 1, :] = -north[:, ::-1] * (1.0 + 1e-7)
             ctx.dist["c07:near-antisymmetric-field"] += 1
-        if name in ("EOF", "ComplexEOF", "POP") and (i // len(names)) % 2 == 1:
+        # (not combined with standardisation: standardised, the two rows have exactly equal loadings of opposite sign - an exact tie, which has no defined sign)
+        if name in ("EOF", "ComplexEOF", "POP") and (i // len(names)) % 2 == 1 and not antisym:
             # features in very different units (pressure in Pa next to a precipitation flux), standardised: whatever a feature shares
             # its container with must not matter
             import xarray as xr
